@@ -89,6 +89,11 @@ def grammars(tier):
     for p in PLACEMENTS:
         for act in ("", " { foo() }"):
             yield (f"start: a NEWLINE\na: NUMBER {p} NAME{act} | NUMBER NAME* | NAME\ninvalid_x: NAME NAME {{ foo() }} | NUMBER {{ foo() }}\n")
+    # an error-reporting rule is any rule whose name BEGINS with `invalid` (no underscore needed)
+    for nm in ("invalidnum", "invalid"):
+        for p in PLACEMENTS[::3] + PLACEMENTS[1::5]:
+            yield (f"start: a NEWLINE\na: NUMBER {p} NAME | NUMBER NAME* | NAME\ninvalid_x: NAME NAME {{ foo() }} | NUMBER {{ foo() }}\n"
+                   .replace("invalid_x", nm))
     for t in SEEDS_WI:
         yield t
     r = common.rng("c12")
